@@ -46,6 +46,20 @@ var (
 	})
 )
 
+// ShouldReload reports whether the namespaces configuration itself changed.
+// Only then is this watcher, and with it the last valid version of every file
+// it holds, replaced by a new one.
+func (nw *oplConfigWatcher) ShouldReload(newValue interface{}) bool {
+	v, ok := newValue.(map[string]any)
+	if !ok {
+		// the manager type changed
+		return true
+	}
+	target, ok := v["location"].(string)
+	// reload if the location changed
+	return !ok || target != nw.target
+}
+
 func newOPLConfigWatcher(ctx context.Context, c *Config, target string) (*oplConfigWatcher, error) {
 	nw := &oplConfigWatcher{
 		logger:                 c.l,
